@@ -188,7 +188,7 @@ def run(tier, seed):
         ),
         "samples": samples,
     }
-    if tier == "thorough":
+    if True:  # E5 runs in both tiers (about 6 s for the reader model, 2 s for the sequencer)
         from .. import tlc
 
         tl = tlc.run_sequencer_conformance()
